@@ -6,7 +6,7 @@ with an explicit dep_file inside a temp dir, on each backend (json, dbm, sqlite3
 States are built by histories of real steps:
     Write f c | Touch f | Delete f (files with mtimes from the harness clock, os.utime) | SetDef t def |
     SetChecker ck | Run [tasks] (doit run --continue, instrumented python-actions, some failing) |
-    Forget t | ForgetAll | Ignore t | ResetDep t   (the real commands)
+    Forget t | ForgetAll | Ignore t | ResetDep t   (the real commands) | SetVals k values (what calc task k returns from now on)
 and at every `Probe` a batch of read-only commands is executed:
     list [-s] [--all] [-p] [--deps] [--sort definition] [-q] [TASK..], info [--no-status] TASK, help [X],
     dumpdb (dbm), tabcompletion -s bash|zsh [--hardcode-tasks], clean --dry-run [-c] [-a] [--forget] [TASK]
@@ -14,7 +14,15 @@ each between two snapshots of (a) the logical DB content read through a fresh De
 record of every task id) and (b) the file tree (names, sizes, mtimes, sha1; the directory holding
 the DB files excluded), with a record of every instrumented action that ran.  The probe ends with
 `list -s --all -p`, `info T` for every task and an immediately following `doit run --continue`
-with a recording reporter.
+with a recording reporter (which also keeps the Task objects the dispatcher worked on).
+
+Worlds with chains / trees of calc_dep tasks (shape['chain']; chain_scripted, gen_chain_history): calc tasks K1..K4 whose
+action returns -- and so saves -- {'file_dep': [...], 'calc_dep': [names], 'task_dep': [names]} (any subset of the keys),
+consumers A, B declaring calc_dep on some of them, plain tasks S1, S2 that only occur as contributed task_dep.  Depth 1-3
+(a dependency only found through the values of a calc task that was itself only found through the values of another one),
+diamonds and sharing, back / self references and repeats in the saved lists, a saved name that is not a task, a calc task
+with a declared calc_dep of its own, values that change between two executions, a forgotten / ignored link.  The first three
+scripted shapes run on the three backends (quick), all of them in the thorough tier.
 
 Independent oracles (out.violations; no use of the model):
   * no task action and no clean action without a `dryrun` parameter ran; file tree identical;
@@ -24,13 +32,18 @@ Independent oracles (out.violations; no use of the model):
     run: letter of `list -s` == verdict of `info` == what the run did (R executed, U skipped
     up-to-date, I skipped ignored, E DependencyError while checking);
   * every reason `info` prints is true of the file system / DB / definition `run` uses, and every
-    such fact is printed (conditions recomputed here from the raw DB record and os.stat).
+    such fact is printed (conditions recomputed here from the raw DB record and os.stat; the definition `run` uses
+    = the declared one plus the closure of the values saved by the calc_dep tasks, calc_closure, read from the raw records);
+  * for a task with calc_dep whose dependencies were all skipped up-to-date: the file_dep / calc_dep / task_dep that `info`
+    lists (the Task object after cmd_base.merge_calc_dep) are those of the Task object the run checked, and these are the
+    closure of the saved values.
 
 Correspondence with Model/Introspect.v: for every list / info command the model is evaluated inside
 Coq on the state read back just before the command (configured checker, file system of the known
 files, logical DB content, the task table as the real loader produced it) and must give the same
 lines, the same outcome and the same DB on disk afterwards; `run_decision` (with `run_def` merging
-the calc_dep result) must predict what the run did.  help/dumpdb/tabcompletion/clean --dry-run
+the calc_dep results to a fix-point) must predict what the run did; `info_attrs` must give the dependency entries of the
+attribute listing of `info`, and `merged` the Task object the run checked (enc_mtask).  help/dumpdb/tabcompletion/clean --dry-run
 are compared with `noop_cmd`.
 
 Encoding (list of ints; see enc_lres / enc_ires in Introspect.v, rec_z in History.v):
@@ -42,6 +55,7 @@ Encoding (list of ints; see enc_lres / enc_ires in Introspect.v, rec_z in Histor
   DB:    per task id [0] | [1; mask(deps) or -1; len(deps) or -1; checker; result id or -1; ignore] ++ 4 ints per
          dependency file ++ one int per value key
   run:   [1 I | 2 U | 3 R | 4 E] per compared task
+  task:  [0] sorted file_dep -1 sorted calc_dep ids -1 sorted task_dep ids (a multiset)  |  [95] out of fuel   (enc_mtask)
 
 clean --dry-run over clean LISTS (CleanWorld / CleanRunner below; model: Introspect.v, last part, `cclean_cmd`)
   Worlds of up to 9 tasks (T0 T1 T2, group G with G:a G:b, _P, C, D) with random task_dep / setup edges, an optional
@@ -72,9 +86,11 @@ BASE = 1600000000
 CONTENT = {0: b'aaaa', 1: b'bbbb', 2: b'cc', 3: b'dddd', 4: b''}
 DIGEST = {hashlib.md5(b).hexdigest(): c for c, b in CONTENT.items()}
 RESULT_MD5 = {hashlib.md5(('res%d' % i).encode()).hexdigest(): i for i in range(8)}
-NAME_ID = {'T0': 0, 'T1': 1, 'T2': 2, 'G': 3, 'G:a': 4, 'G:b': 5, '_P': 6, 'C': 7, 'D': 8, 'X': 9, 'zz': 20, 'nope': 21}
+NAME_ID = {'T0': 0, 'T1': 1, 'T2': 2, 'G': 3, 'G:a': 4, 'G:b': 5, '_P': 6, 'C': 7, 'D': 8, 'X': 9,
+           'K1': 10, 'K2': 11, 'K3': 12, 'K4': 13, 'A': 14, 'B': 15, 'S1': 16, 'S2': 17, 'zz': 20, 'nope': 21}
 ID_NAME = {v: k for k, v in NAME_ID.items()}
 TASK_IDS = list(range(10))
+TASK_IDS_K = list(range(18))      # worlds with calc_dep chains (K1..K4 calc tasks, A B consumers, S1 S2 contributed task_dep)
 DEP_FILES = [0, 1, 2, 3, 4]           # f0..f3 file deps, f4 = file_dep of the calc task C; 5..7 = targets g0..g2
 VKEYS = ['run-once', '_config_changed', 'u0', 'u1', 'u2', '_result:T0', '_result:T1', '_result:T2']
 VKEY_N = [0, 1, 2, 4, 6, 3, 5, 7]
@@ -89,6 +105,8 @@ LETTER_Z = {'I': 1, 'U': 2, 'R': 3, 'E': 4}
 PRE = ('From DoitV Require Import Base Status History Introspect.\nFrom DoitV Require Clean.\nOpen Scope Z_scope.\n'
        'Definition md5o (c : N) : N := c.\n'
        'Definition TASKS : list name := [0;1;2;3;4;5;6;7;8;9]%N.\n'
+       'Definition TASKSK : list name := [0;1;2;3;4;5;6;7;8;9;10;11;12;13;14;15;16;17]%N.\n'
+       'Definition CV (fd : list file) (cd td : list name) : cvals := {| cv_file_dep := fd; cv_calc_dep := cd; cv_task_dep := td |}.\n'
        'Definition FILES : list file := [0;1;2;3;4]%N.\n'
        'Definition LO (a s p dd sn : bool) (pos : list name) : lopts := '
        '{| o_subtasks := a; o_status := s; o_private := p; o_list_deps := dd; o_sort_name := sn; o_pos := pos |}.\n'
@@ -132,13 +150,14 @@ def mask(xs):
 # ------------------------------------------------------------------ recording reporter
 class RecReporter:
     log = None
+    tasks = None
     desc = 'recording'
 
     def __init__(self, outstream, options):
         pass
 
     def initialize(self, tasks, selected_tasks):
-        pass
+        RecReporter.tasks = tasks          # the Task objects the dispatcher works on (and merges calc_dep results into)
 
     def get_status(self, task):
         pass
@@ -231,6 +250,11 @@ class World:
         self.defs = {t: dict(file_dep=[], target=False, uptodate=[], values=[], result=None) for t in range(3)}
         self.fsview = {}
         self.fails = set()
+        ch = shape.get('chain')
+        self.task_ids = TASK_IDS_K if ch else TASK_IDS
+        self.tasks_coq = 'TASKSK' if ch else 'TASKS'
+        # what the action of each calc task returns at the moment (step SetVals changes it)
+        self.kvals = {k: {a: list(b) for a, b in t.get('vals', {}).items()} for k, t in (ch or {}).items()}
 
     # ---- files
     def path(self, f):
@@ -328,8 +352,26 @@ class World:
                         'clean': [True, [clean_dry(name), clean_plain(name)], [clean_dry(name)]][t]}
             creator.__name__ = 'task_T%d' % t
             return creator
-        for t in range(3):
-            ns['task_T%d' % t] = plain(t)
+        if not w.shape.get('chain'):
+            for t in range(3):
+                ns['task_T%d' % t] = plain(t)
+        for cname, ct in (w.shape.get('chain') or {}).items():
+            # K*: calc tasks, the dict their action returns = the values they save; A B: tasks with calc_dep; S*: plain tasks
+            def chain_task(cname=cname, ct=ct):
+                d = {'file_dep': [w.path(f) for f in ct.get('fd', [])]}
+                if cname in w.kvals and 'vals' in ct:
+                    kv = w.kvals[cname]
+                    vals = {k: ([w.path(f) for f in x] if k == 'file_dep' else list(x)) for k, x in kv.items()}
+                    d['actions'] = [(action(cname, values=vals),)]
+                else:
+                    d['actions'] = [(action(cname),)]
+                if ct.get('calc'):
+                    d['calc_dep'] = list(ct['calc'])
+                if ct.get('td'):
+                    d['task_dep'] = list(ct['td'])
+                return d
+            chain_task.__name__ = 'task_' + cname
+            ns['task_' + cname] = chain_task
         if w.shape.get('group'):
             def task_G():
                 yield {'name': 'a', 'actions': [action('G:a')], 'file_dep': [w.path(0)]}
@@ -372,6 +414,7 @@ class World:
         from doit.cmd_base import ModuleTaskLoader
         from doit.globals import Globals
         RecReporter.log = []
+        RecReporter.tasks = None
         buf = io.StringIO()
         real = (sys.stdout, sys.stderr)
         cwd = os.getcwd()
@@ -473,7 +516,7 @@ class World:
 
     def db_ints(self, recs):
         out = []
-        for t in TASK_IDS:
+        for t in self.task_ids:
             out += self.rec_ints(recs.get(ID_NAME[t]))
         return out
 
@@ -564,13 +607,15 @@ def coq_rank(tasks):
 class State:
     """what the model is given: everything read back from the world just before a command"""
     def __init__(self, w, recs, tasks):
-        cf = saved_file_dep(w, recs)
-        cf_coq = '(fun c : name => match c with %s | _ => [] end)' % ' '.join('| %d%%N => %s' % (NAME_ID[n], nlist(fs_)) for n, fs_ in sorted(cf.items()))
+        cv = saved_cvals(w, recs)
+        cf_coq = '(fun c : name => match c with %s | _ => no_cvals end)' % ' '.join(
+            '| %d%%N => CV %s %s %s' % (NAME_ID[n], nlist(x['file_dep']), nlist(x['calc_dep']), nlist(x['task_dep'])) for n, x in sorted(cv.items()))
         self.defs = ('Definition fs_# : fsys := %s.\nDefinition db_# : db := %s.\nDefinition tb_# : table := %s.\nDefinition lt_# : name -> name -> bool := %s.\n'
-                     'Definition cf_# : name -> list file := %s.\n'
+                     'Definition cv_# : name -> cvals := %s.\n'
                      % (coq_fs(w), coq_db(w, recs), coq_table(w, tasks), coq_rank(tasks), cf_coq))
         self.ck = 'MD5' if w.ck == 'md5' else 'TS'
         self.backend = BACKEND_COQ[w.backend]
+        self.tasks = w.tasks_coq
 
 
 def b2c(b):
@@ -608,14 +653,73 @@ def info_tok(out, i):
     return 1, False
 
 
-def saved_file_dep(w, recs):
-    """name -> file numbers under 'file_dep' in the values the task saved (the model's oracle cf)"""
+def saved_cvals(w, recs):
+    """name -> dict(file_dep=[file numbers], calc_dep=[task ids], task_dep=[task ids]): the lists under these keys in the
+    values the task saved (the model's oracle cv).  A name that is not in NAME_ID is given the id of 'zz' (not a task)."""
     res = {}
     for n, r in recs.items():
-        fd = (r.get('_values_:') or {}).get('file_dep')
-        if fd:
-            res[n] = [w.fileno(p) for p in fd]
+        vals = r.get('_values_:') or {}
+        fd, cd, td = vals.get('file_dep') or [], vals.get('calc_dep') or [], vals.get('task_dep') or []
+        if fd or cd or td:
+            res[n] = dict(file_dep=[w.fileno(p) for p in fd], calc_dep=[NAME_ID.get(x, 20) for x in cd], task_dep=[NAME_ID.get(x, 20) for x in td])
     return res
+
+
+def calc_closure(w, recs, tasks, t):
+    """what `run` ends up with for task t when every calc_dep task it meets is up-to-date, recomputed from the raw DB
+    records (no doit code, no model): the declared dependencies plus whatever the values saved by the calc_dep tasks --
+    declared, or named by the values of another one -- contribute.  -> (file numbers, calc_dep names, task_dep names)"""
+    names = set(x.name for x in tasks)
+    fdep = [w.fileno(p) for p in t.file_dep]
+    calc, tdep = set(t.calc_dep), list(t.task_dep)
+    seen = set()
+    while True:
+        new = [c for c in sorted(calc) if c not in seen and c in names]
+        if not new:
+            break
+        for c in new:
+            seen.add(c)
+            vals = (recs.get(c) or {}).get('_values_:') or {}
+            fdep += [f for f in (w.fileno(p) for p in vals.get('file_dep') or []) if f not in fdep]
+            calc |= set(vals.get('calc_dep') or [])
+            tdep += list(vals.get('task_dep') or [])
+    return fdep, calc, tdep
+
+
+def parse_info_attrs(w, txt):
+    """the file_dep / calc_dep / task_dep entries of the attribute listing `info` prints -> ints as enc_mtask"""
+    got = {}
+    lines = txt.split('\n')
+    for attr in ('file_dep', 'calc_dep', 'task_dep'):
+        items = []
+        for i, ln in enumerate(lines):
+            if ln.startswith('%-11s:' % attr):
+                j = i + 1
+                while j < len(lines) and lines[j].startswith(' - '):
+                    items.append(lines[j][3:])
+                    j += 1
+        got[attr] = items
+    return task_ints([w.fileno(p) for p in got['file_dep']], got['calc_dep'], got['task_dep'])
+
+
+def calc_depth(w, recs, tasks, t):
+    """length of the longest discovery chain: 1 = every calc_dep is declared by the task, 2 = some are only named in the
+    values of a declared one, ..."""
+    names = set(x.name for x in tasks)
+    level, seen, depth = set(t.calc_dep), set(), 0
+    while level:
+        depth += 1
+        seen |= level
+        nxt = set()
+        for c in level:
+            if c in names:
+                nxt |= set(((recs.get(c) or {}).get('_values_:') or {}).get('calc_dep') or [])
+        level = nxt - seen
+    return depth
+
+
+def task_ints(fdep, calc, tdep):
+    return [0] + sorted(fdep) + [-1] + sorted(NAME_ID.get(x, 77) for x in calc) + [-1] + sorted(NAME_ID.get(x, 77) for x in tdep)
 
 
 def parse_list_args(args):
@@ -721,14 +825,14 @@ def parse_info_output(w, rc, txt):
 
 
 def list_model(st, idx, o):
-    return ('enc_lres %s TASKS FILES db_# (list_cmd md5o current lt_# icurrent cf_# tb_# (LO %s %s %s %s %s %s) %s fs_# db_#)' % (
-        st.backend, b2c(o['all']), b2c(o['status']), b2c(o['private']), b2c(o['deps']), b2c(o['sort_name']),
+    return ('enc_lres %s %s FILES db_# (list_cmd md5o current lt_# icurrent cv_# tb_# (LO %s %s %s %s %s %s) %s fs_# db_#)' % (
+        st.backend, st.tasks, b2c(o['all']), b2c(o['status']), b2c(o['private']), b2c(o['deps']), b2c(o['sort_name']),
         nlist(NAME_ID.get(x, 20) for x in o['pos']), st.ck)).replace('#', str(idx))
 
 
 def info_model(st, idx, pos, hide):
-    return ('enc_ires %s TASKS FILES db_# (info_cmd md5o current icurrent cf_# tb_# %s %s %s fs_# db_#)' % (
-        st.backend, nlist(NAME_ID.get(x, 20) for x in pos), b2c(hide), st.ck)).replace('#', str(idx))
+    return ('enc_ires %s %s FILES db_# (info_cmd md5o current icurrent cv_# tb_# %s %s %s fs_# db_#)' % (
+        st.backend, st.tasks, nlist(NAME_ID.get(x, 20) for x in pos), b2c(hide), st.ck)).replace('#', str(idx))
 
 
 # ------------------------------------------------------------------ the true reasons (oracle for `info`)
@@ -782,6 +886,7 @@ class Runner:
         self.w = World(ctx, backend, shape)
         self.cases = []
         self.ncmd = 0
+        self.last_attrs, self.must = None, []
 
     def case_desc(self, extra):
         return dict(backend=self.backend, shape=self.shape, history=self.history, **extra)
@@ -846,10 +951,22 @@ class Runner:
             idx = next_idx()
             self.cases.append(dict(defs=st.defs.replace('#', str(idx)), model=info_model(st, idx, pos, hide), expected=obs,
                                    desc=self.case_desc(dict(cmd=label))))
+            # the attribute listing printed after the status: the Task object as merge_calc_dep left it
+            self.last_attrs = None
+            lt = {t.name: t for t in tasks}.get(pos[0]) if len(pos) == 1 else None
+            if parsed is not None and lt is not None:
+                self.last_attrs = parse_info_attrs(w, txt)
+                if lt.calc_dep or self.ncmd % 8 == 0:
+                    idx = next_idx()
+                    expr = ('enc_mtask (match lookup tb_# %d%%N with Some t => Some (info_attrs icurrent cv_# tb_# %s db_# t) | None => None end)'
+                            % (NAME_ID[pos[0]], b2c(hide))).replace('#', str(idx))
+                    self.cases.append(dict(defs=st.defs.replace('#', str(idx)), model=expr, expected=self.last_attrs,
+                                           desc=self.case_desc(dict(cmd=label + ' [attribute listing]'))))
+                    out.count('info-attribute-listing-compared' + (':with-calc_dep' if lt.calc_dep else ''))
         else:
             idx = next_idx()
             self.cases.append(dict(defs='Definition db_%d : db := %s.\n' % (idx, coq_db(w, recs0)),
-                                   model='db_z TASKS FILES (noop_cmd db_%d)' % idx, expected=w.db_ints(recs1),
+                                   model='db_z %s FILES (noop_cmd db_%d)' % (w.tasks_coq, idx), expected=w.db_ints(recs1),
                                    desc=self.case_desc(dict(cmd=label))))
             if rc not in (0, None) and not (args[0] == 'dumpdb'):
                 out.count('cmd-nonzero:' + args[0])
@@ -866,6 +983,11 @@ class Runner:
              ['help'], ['help', some()], ['help', 'list'], ['help', 'task'],
              ['tabcompletion', '-s', 'bash'], ['tabcompletion', '-s', 'zsh'], ['tabcompletion', '-s', 'bash', '--hardcode-tasks'],
              ['tabcompletion', '-s', 'zsh', '--hardcode-tasks']]
+        self.must = []
+        if 'A' in present:
+            # tasks whose dependencies come from chains of calc_dep tasks: --deps prints the Task object after the merge
+            self.must = [['list', '-s', '--deps', 'A'] + (['B'] if 'B' in present else []), ['list', '--deps', '-s', '--all', '-p', '--sort', 'definition'],
+                         ['info', '--no-status', 'A']]
         if 'G' in present:
             v.append(['list', '--all', '-s', 'G'])
         if 'X' in present:
@@ -880,8 +1002,12 @@ class Runner:
     def probe(self, full):
         w, out, rng = self.w, self.out, self.ctx.rng
         vs = self.variants()
-        if not full:
-            vs = rng.sample(vs, min(len(vs), 7))
+        if full == 'lite':
+            vs = rng.sample(vs, min(len(vs), 2)) + rng.sample(self.must, min(len(self.must), 2))
+        elif not full:
+            vs = rng.sample(vs, min(len(vs), 7)) + self.must
+        else:
+            vs = vs + self.must
         rng.shuffle(vs)
         for args in vs:
             self.readonly(args)
@@ -889,19 +1015,18 @@ class Runner:
             return                    # `run` rejects this dodo file (dangling task_dep): nothing to compare with
         # verdicts and reasons of `info` for every task, then the letters, then -- immediately -- the run
         tasks = w.loaded()
-        infos, truths, info_recs = {}, {}, {}
+        infos, truths, info_recs, attrs = {}, {}, {}, {}
         names = [t.name for t in tasks]
         bytask = {t.name: t for t in tasks}
         for n in names:
             rc, txt, parsed, recs0, _ = self.readonly(['info', n])
             infos[n] = parsed
-            info_recs[n] = recs0.get(n)
+            attrs[n] = self.last_attrs
             t = bytask[n]
-            # what the dispatcher merges into the task before get_status: the file_dep its (up-to-date) calc_dep tasks saved
-            cf = saved_file_dep(w, recs0)
-            merged = [w.fileno(p) for p in t.file_dep]
-            for c_ in t.calc_dep:
-                merged += [f for f in cf.get(c_, []) if f not in merged]
+            # what the dispatcher merges into the task before get_status: what its (up-to-date) calc_dep tasks saved, and
+            # the calc_dep tasks these values name, and so on
+            merged, calc_all, _ = calc_closure(w, recs0, tasks, t)
+            info_recs[n] = {x: recs0.get(x) for x in [n] + sorted(calc_all)}
             truths[n] = true_reasons(w, t, recs0.get(n), merged)     # the facts at the moment `info` was asked
         rc, txt, lst, _, _ = self.readonly(['list', '-s', '--all', '-p'])
         letters = {}
@@ -924,6 +1049,7 @@ class Runner:
         self.ncmd += 1
         out.count('cmd:run')
         outcome = {}
+        rtasks = RecReporter.tasks or {}      # the Task objects of this run, with everything the dispatcher merged into them
         for n in names:
             ev = [(e, x) for e, nm, x in log if nm == n]
             kinds = [e for e, _ in ev]
@@ -961,16 +1087,35 @@ class Runner:
                 out.count('info-uptodate-verified')
         # letters and verdicts against what the run did
         did = ['skipped it (ignored)', 'skipped it (up-to-date)', 'executed it', 'reported a dependency error']
-        comp = []
+        comp, comp_calc = [], []
         for n in names:
             t = bytask[n]
-            deps = list(t.task_dep) + list(t.setup_tasks) + list(t.calc_dep)
+            rt = rtasks.get(n, t)         # dependencies as the run ended up seeing them (calc_dep results merged, to any depth)
+            deps = list(rt.task_dep) + list(rt.setup_tasks) + list(rt.calc_dep)
             if outcome[n] not in (1, 2, 3, 4) or any(outcome.get(d) != 2 for d in deps):
                 out.count('run-compare:skipped-deps-not-uptodate')
                 continue
             out.count('run-compare:%s' % 'IURE'[outcome[n] - 1])
             comp.append(n)
             has_calc = bool(t.calc_dep)
+            if has_calc:
+                depth = calc_depth(w, recs_run, tasks, t)
+                out.count('run-compare:calc-chain-depth-%d' % depth)
+            same_moment = info_recs[n] == {x: recs_run.get(x) for x in info_recs[n]}
+            if has_calc and outcome[n] != 1 and n in rtasks:
+                # the Task object of the run against (a) the saved values, read from the raw records, (b) what `info` listed
+                used = task_ints([w.fileno(p) for p in rt.file_dep], rt.calc_dep, rt.task_dep)
+                fd_, cd_, td_ = calc_closure(w, recs_run, tasks, t)
+                if used != task_ints(fd_, cd_, td_):
+                    self.violation('run merged %s into task %s, the values saved by its (up-to-date) calc_dep tasks give %s' % (used, n, task_ints(fd_, cd_, td_)),
+                                   'run-calc-dep-merge-differs-from-saved-values', dict(task=n))
+                comp_calc.append((n, used))
+                if same_moment and attrs.get(n) is not None and infos.get(n) is not None and infos[n]['status'] not in (None, 'ignored'):
+                    if attrs[n] != used:
+                        self.violation('`info %s` lists dependencies %s (file_dep -1 calc_dep -1 task_dep), the immediately following run checked the task with %s' % (
+                            n, attrs[n][1:], used[1:]), 'list-info-calc-dep-not-merged', dict(task=n))
+                    else:
+                        out.count('info-attributes-equal-run-task:depth-%d' % depth)
             if letters.get(n) != outcome[n]:
                 self.violation('`list --status` shows %s for task %s, the immediately following run %s' % (
                     'IURE?'[(letters.get(n) or 5) - 1], n, did[outcome[n] - 1]),
@@ -978,8 +1123,8 @@ class Runner:
             inf = infos.get(n)
             if inf is None or inf['status'] is None:
                 continue
-            if info_recs[n] != recs_run.get(n):
-                # a command in between dropped this task's record (the documented invalidation): not the same moment
+            if not same_moment:
+                # a command in between dropped a record this verdict depends on (the documented invalidation): not the same moment
                 out.count('run-compare:info-skipped-record-invalidated-in-between')
                 continue
             iz = {'ignored': 1, 'up-to-date': 2, 'run': 3, 'error': 4}.get(inf['status'], 0)
@@ -996,9 +1141,19 @@ class Runner:
             idx = next_idx()
             expr = '[' + '; '.join(
                 'decision_z (match lookup tb_# %d%%N with Some t => run_decision md5o current %s fs_# db_# %d%%N '
-                '(run_def tb_# (saved_fd cf_# db_#) t) | None => DCrash end)' % (NAME_ID[n], st.ck, NAME_ID[n]) for n in comp) + ']'
+                '(run_def tb_# (saved_cv cv_# db_#) t) | None => DCrash end)' % (NAME_ID[n], st.ck, NAME_ID[n]) for n in comp) + ']'
             self.cases.append(dict(defs=st.defs.replace('#', str(idx)), model=expr.replace('#', str(idx)),
                                    expected=[outcome[n] for n in comp], desc=self.case_desc(dict(cmd='run', tasks=comp))))
+        if comp_calc:
+            # the Task objects the run checked: [merged] on the values saved at that moment
+            idx = next_idx()
+            expr = '(' + ' ++ [-9] ++ '.join(
+                'enc_mtask (match lookup tb_# %d%%N with Some t => merged tb_# (saved_cv cv_# db_#) t | None => None end)' % NAME_ID[n] for n, _ in comp_calc) + ')'
+            exp = []
+            for i, (n, used) in enumerate(comp_calc):
+                exp += ([-9] if i else []) + used
+            self.cases.append(dict(defs=st.defs.replace('#', str(idx)), model=expr.replace('#', str(idx)), expected=exp,
+                                   desc=self.case_desc(dict(cmd='run [merged Task objects]', tasks=[n for n, _ in comp_calc]))))
         return letters, outcome
 
     # ---- the history
@@ -1016,6 +1171,8 @@ class Runner:
                 w.defs[step[1]] = step[2]
             elif k == 'SetChecker':
                 w.ck = step[1]
+            elif k == 'SetVals':
+                w.kvals[step[1]] = {a: list(b) for a, b in step[2].items()}
             elif k == 'Run':
                 w.fails = set(step[2])
                 w.doit(['run', '--continue'] + list(step[1]))
@@ -1587,8 +1744,113 @@ def scripted():
     return hs
 
 
+# ------------------------------------------------------------------ chains / trees of calc_dep tasks
+def KT(vals, fd=(4,), calc=()):
+    """a calc task: its action returns `vals` (file numbers under 'file_dep', task names under 'calc_dep' / 'task_dep')"""
+    d = dict(fd=list(fd), vals={k: list(x) for k, x in vals.items()})
+    if calc:
+        d['calc'] = list(calc)
+    return d
+
+
+def chain_scripted():
+    W = [('Write', f, f) for f in range(5)]
+    hs = []
+    # depth 2: A -> K1 -> K2 -> f1; B -> K2 is the control (depth 1).  Nothing modified / f1 modified / the calc tasks stale
+    c2 = dict(A=dict(calc=['K1']), B=dict(calc=['K2'], fd=[0]), K1=KT({'calc_dep': ['K2']}), K2=KT({'file_dep': [1]}))
+    hs.append((dict(chain=c2), W + [('Run', [], []), ('Probe', False), ('Write', 1, 3), ('Probe', 'lite'), ('Write', 4, 0), ('Probe', 'lite')]))
+    # depth 3, file_dep at every level, task_dep contributed at depth 2 and 3 (one of them twice); a missing file; a forgotten link
+    c3 = dict(A=dict(calc=['K1'], fd=[3]), K1=KT({'calc_dep': ['K2'], 'file_dep': [0]}), K2=KT({'calc_dep': ['K3'], 'task_dep': ['S1']}),
+              K3=KT({'file_dep': [1, 2], 'task_dep': ['S2', 'S1']}), S1=dict(fd=[4]), S2=dict(fd=[4]))
+    hs.append((dict(chain=c3), W + [('Run', [], []), ('Probe', 'lite'), ('Delete', 2), ('Probe', 'lite'), ('Write', 2, 2), ('Run', [], []),
+                                    ('Forget', 'K2'), ('Probe', 'lite'), ('Probe', 'lite')]))
+    # diamond with sharing, a back reference, a self reference and a repeat; B enters the same calc tasks elsewhere
+    dm = dict(A=dict(calc=['K1', 'K2']), B=dict(calc=['K3']), K1=KT({'calc_dep': ['K3'], 'file_dep': [0]}),
+              K2=KT({'calc_dep': ['K3', 'K3', 'K2'], 'file_dep': [0, 1]}), K3=KT({'file_dep': [2], 'calc_dep': ['K1']}))
+    hs.append((dict(chain=dm), W + [('Run', [], []), ('Probe', 'lite'), ('Touch', 2), ('Write', 0, 4), ('Probe', 'lite')]))
+    # tree: the calc task K1 has a calc_dep of its own (K4 tells K1's file_dep); what K1 returns changes between two executions
+    tr = dict(A=dict(calc=['K1']), K1=KT({'calc_dep': ['K2']}, calc=['K4']), K2=KT({'file_dep': [1]}), K3=KT({'file_dep': [2]}), K4=KT({'file_dep': [3]}))
+    hs.append((dict(chain=tr), W + [('Run', [], []), ('Probe', 'lite'), ('SetVals', 'K1', {'calc_dep': ['K3']}), ('Probe', 'lite'), ('Write', 3, 0), ('Run', [], []),
+                                    ('Probe', 'lite'), ('Ignore', 'K3'), ('Probe', 'lite')]))
+    # a saved name that is not a task: list / info skip it; `run` stops with a KeyError, so there is nothing to compare the letters with
+    un = dict(A=dict(calc=['K1']), K1=KT({'calc_dep': ['nope', 'K2']}), K2=KT({'file_dep': [1]}))
+    hs.append((dict(chain=un), W + [('Run', ['K1', 'K2'], []), ('Probe', 'lite')]))
+    return hs
+
+
+def gen_kvals(rng, ks, i, plain, back):
+    vals, later = {}, ks[i + 1:]
+    if later and rng.random() < 0.8:
+        cd = rng.sample(later, rng.choice([1, 1, 2]) if len(later) > 1 else 1)
+        if back and rng.random() < 0.25:
+            cd.append(rng.choice(ks))              # back or self reference
+        if rng.random() < 0.15:
+            cd.append(cd[0])                       # repeat
+        vals['calc_dep'] = cd
+    if not later or rng.random() < 0.5:
+        vals['file_dep'] = sorted(rng.sample(range(4), rng.choice([1, 1, 2])))
+    if plain and rng.random() < 0.3:
+        vals['task_dep'] = rng.sample(plain, rng.choice([1, len(plain)]))
+    return vals
+
+
+def gen_chain_history(rng, n_ops):
+    """2-4 calc tasks K1..Kn whose saved values name later ones (chains of depth 1-3, diamonds, sharing; sometimes back / self
+    references and repeats), consumers A (and B), plain tasks S* contributed as task_dep; sometimes K1 has a calc_dep itself"""
+    nk = rng.choice([2, 3, 3, 4])
+    ks = ['K%d' % i for i in range(1, nk + 1)]
+    plain = sorted(rng.sample(['S1', 'S2'], rng.choice([0, 1, 2])))
+    tree = nk >= 3 and rng.random() < 0.3
+    back = not tree                                # a back reference into a calc task that declares calc_dep would be a real cycle
+    ch = {}
+    ch['A'] = dict(calc=sorted(rng.sample(ks[:2], rng.choice([1, 1, 2]))), fd=sorted(rng.sample(range(4), rng.choice([0, 0, 1]))))
+    if rng.random() < 0.6:
+        ch['B'] = dict(calc=[rng.choice(ks)], fd=[], td=(['A'] if rng.random() < 0.3 else []))
+    for i, k in enumerate(ks):
+        ch[k] = KT(gen_kvals(rng, ks, i, plain, back))
+    if tree:
+        ch[ks[0]]['calc'] = [ks[-1]]
+    for p_ in plain:
+        ch[p_] = dict(fd=[4])
+    names = list(ch)
+    h = [('SetChecker', rng.choice(['md5', 'md5', 'ts']))] + [('Write', f, rng.randrange(5)) for f in range(5)] + [('Run', [], [])]
+    if rng.random() < 0.5:
+        h.append(('Probe', 'lite'))
+    for _ in range(n_ops):
+        r = rng.random()
+        if r < 0.22:
+            h.append(('Write', rng.randrange(4), rng.randrange(5)))
+        elif r < 0.28:
+            h.append(('Touch', rng.randrange(4)))
+        elif r < 0.36:
+            h.append(('Delete', rng.randrange(4)))
+        elif r < 0.46:
+            h.append(('Write', 4, rng.randrange(5)))                     # the calc tasks are stale
+        elif r < 0.60:
+            i = rng.randrange(nk)
+            h.append(('SetVals', ks[i], gen_kvals(rng, ks, i, plain, back)))
+        elif r < 0.80:
+            h.append(('Run', rng.sample(names, rng.choice([1, 2])) if rng.random() < 0.3 else [], [x for x in names if rng.random() < 0.1]))
+        elif r < 0.88:
+            h.append(('Forget', rng.choice(names)))
+        elif r < 0.92:
+            h.append(('Ignore', rng.choice(names)))
+        elif r < 0.96:
+            h.append(('SetChecker', rng.choice(['md5', 'ts'])))
+        else:
+            h.append(('ResetDep', rng.choice(names)))
+        if rng.random() < 0.25:
+            h.append(('Probe', 'lite'))
+    # everything up-to-date (unless something is missing / ignored), then one modification of a file the consumers depend on
+    h += [('Run', [], []), ('Probe', 'lite'), rng.choice([('Write', rng.randrange(4), rng.randrange(5)), ('Touch', rng.randrange(4)), ('Delete', rng.randrange(4))]),
+          ('Probe', 'lite')]
+    return dict(chain=ch), h
+
+
 RULE = ('scripted histories (calc_dep, missing file_dep with changed dep / false uptodate / missing target, checker switch, ignore, forget, failed run, '
-        'result_dep, empty DB, dangling task_dep) + random histories (3 configurable tasks + optional group with 2 sub-tasks, private task, '
+        'result_dep, empty DB, dangling task_dep) + calc_dep chains / trees (calc tasks whose saved values name file_dep, task_dep and further calc_dep: '
+        'depth 1-3, diamonds, sharing, back / self references, repeats, a name that is not a task, a calc task with a calc_dep of its own, values '
+        'that change between executions; scripted on the three backends + random worlds) + random histories (3 configurable tasks + optional group with 2 sub-tasks, private task, '
         'calc_dep pair; 5 dependency files, 3 targets; both checkers), backends in rotation; at each probe a sample (or all) of the read-only '
         'command variants, then list -s --all -p, info of every task and a run.  non-trivial = distinct (history, command) executed after at '
         'least one successful run of the history.  clean --dry-run: worlds of up to 9 tasks whose clean lists enumerate every sequence over '
@@ -1609,6 +1871,11 @@ def run(ctx):
     for i in range(ctx.n(7, 80)):
         s, h = gen_history(rng, rng.randrange(3, ctx.n(7, 12)), ctx.n(2, 3))
         hs.append(('random', s, h))
+    n_chain0 = len(hs)
+    hs += [('chain-scripted', s, h) for s, h in chain_scripted()]
+    for i in range(ctx.n(4, 60)):
+        s, h = gen_chain_history(rng, rng.randrange(2, ctx.n(5, 9)))
+        hs.append(('chain-random', s, h))
     cases = []
     backends = ('json', 'dbm', 'sqlite')
     t0 = time.time()
@@ -1616,14 +1883,21 @@ def run(ctx):
         todo = backends if (kind == 'scripted' and hi < 5 and not ctx.quick) else (backends[hi % 3],)
         if kind == 'scripted' and hi in (0, 2, 4) and ctx.quick:
             todo = ('dbm', backends[hi % 3]) if backends[hi % 3] != 'dbm' else ('dbm', 'json')
+        if kind == 'chain-scripted' and (hi - n_chain0 < 3 or not ctx.quick):
+            todo = backends                  # the chain / diamond shapes on every backend
         for b in todo:
             r = Runner(ctx, out, b, h, shape, kind)
+            t_h = time.time()
             try:
                 cs = r.run()
             except Exception as e:  # noqa -- a harness/implementation failure becomes a disagreement, not a crash
                 import traceback
                 cs = r.cases + [dict(model='[0]', expected=[97, len(type(e).__name__)], desc=dict(error=traceback.format_exc()[-600:], history=h, backend=b))]
             out.count('history:%s:%s' % (kind, b))
+            secs = out.extra.setdefault('seconds_by_history_kind', {})
+            secs[kind] = round(secs.get(kind, 0) + time.time() - t_h, 1)
+            ncs = out.extra.setdefault('cases_by_history_kind', {})
+            ncs[kind] = ncs.get(kind, 0) + len(cs)
             for c in cs:
                 ran_before = any(s_[0] == 'Run' for s_ in h)
                 if ran_before:
@@ -1664,7 +1938,10 @@ def run(ctx):
     out.traces_validated = len(cases)
     for i, m in bad:
         out.mismatches.append(dict(case=cases[i]['desc'], impl=cases[i]['expected'], model=m))
-    out.assumptions = ['interpretation fixed in DESIGN C20: creating an empty DB file where none existed is not an alteration; only logical DB content and non-DB files are compared',
+    out.assumptions = ['calc_dep: the values a calc task saved contribute file_dep, calc_dep (to any depth) and task_dep; an `uptodate` key in such values, `*` patterns in a contributed '
+                       'task_dep and the implicit task_dep `run` adds when a contributed file_dep is the target of another task are not modelled and not generated; the letters / verdicts '
+                       'are compared with the run only for tasks whose dependencies (as the run ended up seeing them) were all skipped up-to-date',
+                       'interpretation fixed in DESIGN C20: creating an empty DB file where none existed is not an alteration; only logical DB content and non-DB files are compared',
                        'callables in uptodate are oracles (Some true / Some false / None); tools.run_once, config_changed (string form) and result_dep on a plain task are modelled',
                        'help, dumpdb and tabcompletion are tied by snapshots only (model: no transition); so are the clean --dry-run variants inside the list/info histories',
                        'clean lists: what a user-written clean action does to files is an oracle carried by the action; the instrumented callables with a `dryrun` parameter honour it (hypothesis `honest` of C20_clean_cmd_dryrun_frame); targets are regular files (directories: C14)',
